@@ -155,3 +155,171 @@ package core
 //@   ensures [emptied] result == nil ==> s.cacheSize == 0 && s.batchRegions != old(s.batchRegions) && len(s.batchRegions) == 0
 //@   modifies s.cacheSize, s.batchRegions
 
+
+// ================= C06: the region cache never regresses and never holds overlapping regions =================
+// Abstract view of the key-ordered index: bthas[t][x] says that item x (a *regionItem) is stored in the B-tree t.
+// keyord embeds the total order of keys into the reals ("" is the least key; an empty END key means +infinity).
+//@ ghostmap bthas bool2
+//@ pure ver(x *RegionInfo) = ite(x.meta.RegionEpoch == nil, 0, x.meta.RegionEpoch.Version)
+//@ pure cver(x *RegionInfo) = ite(x.meta.RegionEpoch == nil, 0, x.meta.RegionEpoch.ConfVer)
+//@ pure ovl(a *RegionInfo, b *RegionInfo) = (len(b.meta.EndKey) == 0 || keyord(a.meta.StartKey) < keyord(b.meta.EndKey)) && (len(a.meta.EndKey) == 0 || keyord(b.meta.StartKey) < keyord(a.meta.EndKey))
+//@ pure sameRange(a *RegionInfo, b *RegionInfo) = str(a.meta.StartKey) == str(b.meta.StartKey) && str(a.meta.EndKey) == str(b.meta.EndKey)
+//@ pure staleVs(r *RegionInfo, o *RegionInfo) = (r.term > 0 && r.term < o.term) || ver(r) < ver(o) || cver(r) < cver(o)
+//@ pure cachedRegion(r *RegionsInfo, id uint64) = ite(in(r.regions, id), r.regions[id].region, nil)
+//@ pure inTree(r *RegionsInfo, x *regionItem) = bthas[r.tree.tree][x]
+// Representation invariant coupling the id map and the key index (every mapped item is indexed and vice versa).
+//@ pure wfMapVals(r *RegionsInfo) = forall id uint64 :: {in(r.regions, id)} in(r.regions, id) ==> r.regions[id] != nil && allocated(r.regions[id]) && r.regions[id].region != nil && r.regions[id].region.meta != nil && r.regions[id].region.meta.Id == id
+//@ pure wfMapInTree(r *RegionsInfo) = forall id uint64 :: {inTree(r, r.regions[id])} in(r.regions, id) ==> inTree(r, r.regions[id])
+//@ pure wfTreeInMap(r *RegionsInfo) = forall x *regionItem :: {inTree(r, x)} inTree(r, x) ==> x != nil && allocated(x) && x.region != nil && x.region.meta != nil && in(r.regions, x.region.meta.Id) && r.regions[x.region.meta.Id] == x
+//@ pure wfRI(r *RegionsInfo) = r != nil && r.tree != nil && allocated(r.tree) && r.tree.tree != nil && allocated(r.tree.tree) && r.regions != nil && wfMapVals(r) && wfMapInTree(r) && wfTreeInMap(r)
+// The put is acceptable against the CURRENT cache: not stale against the cached region of the same id and, when it
+// brings a new key range, not older in version than any indexed region it overlaps.
+//@ pure acceptable(r *RegionsInfo, region *RegionInfo) = (cachedRegion(r, region.meta.Id) != nil ==> !staleVs(region, cachedRegion(r, region.meta.Id))) && ((cachedRegion(r, region.meta.Id) == nil || !sameRange(cachedRegion(r, region.meta.Id), region)) ==> (forall x *regionItem :: {inTree(r, x)} inTree(r, x) && ovl(x.region, region) ==> ver(region) >= ver(x.region)))
+
+// The key index's overlap query: trusted at this level (it rests on the B-tree's ordered iteration; see C07).
+//@ func (*regionTree).getOverlaps
+//@   assumed
+//@   ensures [complete] forall x *regionItem :: {bthas[t.tree][x]} bthas[t.tree][x] && ovl(x.region, region) ==> (exists i :: 0 <= i && i < len(result) && result[i] == x.region)
+//@   ensures [sound] forall i :: {result[i]} 0 <= i && i < len(result) ==> result[i] != nil && result[i].meta != nil && allocated(result[i]) && ovl(result[i], region) && (exists x *regionItem :: bthas[t.tree][x] && x.region == result[i])
+//@   modifies nothing
+
+// PreCheckPutRegion: a put that is stale against the cached region of its id, or older than a cached region it
+// overlaps, gets an error; one that is not gets none; nothing is changed.
+//@ func (*BasicCluster).PreCheckPutRegion
+//@   props C06
+//@   requires bc != nil && wfRI(bc.Regions) && region != nil && region.meta != nil
+//@   ensures [origin] r1 == nil ==> r0 == cachedRegion(bc.Regions, region.meta.Id)
+//@   ensures [passes-only-fresh] r1 == nil && cachedRegion(bc.Regions, region.meta.Id) != nil ==> !staleVs(region, cachedRegion(bc.Regions, region.meta.Id))
+//@   ensures [passes-only-newer-than-overlaps] r1 == nil && (cachedRegion(bc.Regions, region.meta.Id) == nil || !sameRange(cachedRegion(bc.Regions, region.meta.Id), region)) ==> (forall x *regionItem :: {inTree(bc.Regions, x)} inTree(bc.Regions, x) && ovl(x.region, region) ==> ver(region) >= ver(x.region))
+//@   ensures [rejects-only-unacceptable] r1 != nil ==> !acceptable(bc.Regions, region) || !validRange(region)
+//@   ensures [passes-only-valid-range] r1 == nil ==> validRange(region)
+//@   loop 1 invariant forall j :: {overlaps[j]} 0 <= j && j <= rangeindex ==> ver(region) >= ver(overlaps[j])
+//@   modifies nothing
+
+// ---- the key index (regionTree) seen as a set of items; trusted at this level, see C07 ----
+//@ pure validRange(x *RegionInfo) = len(x.meta.EndKey) == 0 || keyord(x.meta.StartKey) < keyord(x.meta.EndKey)
+//@ pure holdsKey(x *RegionInfo, k []byte) = keyord(k) >= keyord(x.meta.StartKey) && (len(x.meta.EndKey) == 0 || keyord(k) < keyord(x.meta.EndKey))
+//@ pure opaque disjointT(t *btree.BTree) = forall x *regionItem, y *regionItem :: {bthas[t][x], bthas[t][y]} bthas[t][x] && bthas[t][y] && x != y ==> !ovl(x.region, y.region)
+//@ pure itemsOK(t *btree.BTree) = forall x *regionItem :: {bthas[t][x]} bthas[t][x] ==> x != nil && allocated(x) && x.region != nil && allocated(x.region) && x.region.meta != nil && allocated(x.region.meta) && validRange(x.region)
+
+// remove takes out the item that holds the region's start key when it carries the same region id, else nothing.
+// Mode `index` (selected by a caller with `at remove K mode index`): the tree is a well-formed index.
+//@ func (*regionTree).remove
+//@   assumed
+//@   requires region != nil && region.meta != nil && (t != nil ==> t.tree != nil)
+//@   requires [index-ok] @index t != nil && itemsOK(t.tree) && disjointT(t.tree)
+//@   ensures [removes-the-holder] @index forall x *regionItem :: {bthas[t.tree][x]} bthas[t.tree][x] == (old(bthas[t.tree][x]) && !(holdsKey(x.region, region.meta.StartKey) && x.region.meta.Id == region.meta.Id))
+//@   modifies t.totalSize, ghost bthas[t.tree]
+
+// update deletes every indexed item that overlaps the new one, inserts it and returns the displaced regions.
+//@ func (*regionTree).update
+//@   assumed
+//@   requires t != nil && t.tree != nil && item != nil && item.region != nil && item.region.meta != nil
+//@   requires [index-ok] @index itemsOK(t.tree) && disjointT(t.tree) && !bthas[t.tree][item] && validRange(item.region)
+//@   ensures [set] @index forall x *regionItem :: {bthas[t.tree][x]} bthas[t.tree][x] == (x == item || (old(bthas[t.tree][x]) && !ovl(x.region, item.region)))
+//@   ensures [returns-displaced] @index forall i :: {result[i]} 0 <= i && i < len(result) ==> result[i] != nil && allocated(result[i]) && old(bthas[t.tree][ufptr("ownerOf", regionItem, result, i)]) && ufptr("ownerOf", regionItem, result, i).region == result[i] && ovl(result[i], item.region)
+//@   ensures [returns-all-displaced] @index forall x *regionItem :: {old(bthas[t.tree][x])} old(bthas[t.tree][x]) && ovl(x.region, item.region) ==> 0 <= uf("indexOf", result, x) && uf("indexOf", result, x) < len(result) && result[uf("indexOf", result, x)] == x.region
+//@   ensures [one-to-one] @index (forall x *regionItem :: {uf("indexOf", result, x)} ufptr("ownerOf", regionItem, result, uf("indexOf", result, x)) == x) && (forall i :: {ufptr("ownerOf", regionItem, result, i)} uf("indexOf", result, ufptr("ownerOf", regionItem, result, i)) == i)
+//@   modifies t.totalSize, ghost bthas[t.tree]
+
+// The per-store sub-indexes are separate trees: maintaining them never touches the main index (see C07).
+//@ func (*RegionsInfo).removeRegionFromSubTree
+//@   assumed
+//@   ensures forall x *regionItem :: {inTree(r, x)} inTree(r, x) == old(inTree(r, x))
+//@   modifies all regionTree.totalSize, ghost bthas
+//@ func (*RegionsInfo).updateSubTreeStat
+//@   assumed
+//@   modifies all regionTree.totalSize
+//@ opaque (*RegionsInfo).shouldRemoveFromSubTree
+
+// The per-store sub-index maps never contain the main index tree.
+//@ pure sepMap(m map[uint64]*regionTree, r *RegionsInfo) = forall s uint64 :: {in(m, s)} in(m, s) ==> m[s] != nil && allocated(m[s]) && m[s] != r.tree && m[s].tree != nil && allocated(m[s].tree) && m[s].tree != r.tree.tree
+//@ pure sepRI(r *RegionsInfo) = r.leaders != nil && r.followers != nil && r.learners != nil && r.pendingPeers != nil && sepMap(r.leaders, r) && sepMap(r.followers, r) && sepMap(r.learners, r) && sepMap(r.pendingPeers, r)
+
+// RemoveRegion: the id leaves the map; the index loses the item holding the region's start key under that id.
+//@ func (*RegionsInfo).RemoveRegion
+//@   props C06 C07
+//@   requires r != nil && r.tree != nil && r.tree.tree != nil && r.regions != nil && region != nil && region.meta != nil
+//@   ensures [unmapped] forall id uint64 :: {in(r.regions, id)} in(r.regions, id) == (old(in(r.regions, id)) && id != region.meta.Id)
+//@   ensures [map-values] forall id uint64 :: {r.regions[id]} in(r.regions, id) ==> r.regions[id] == old(r.regions[id])
+//@   requires [index-ok] itemsOK(r.tree.tree) && disjointT(r.tree.tree)
+//@   at remove 1 mode index
+//@   ensures [unindexed] forall x *regionItem :: {inTree(r, x)} inTree(r, x) == (old(inTree(r, x)) && !(holdsKey(x.region, region.meta.StartKey) && x.region.meta.Id == region.meta.Id))
+//@   modifies r.regions[*], all regionTree.totalSize, ghost bthas
+
+// The whole representation invariant of the region cache: id map and key index coupled, indexed regions well
+// formed and pairwise disjoint, per-store sub-indexes separate from the main index.
+//@ pure cacheOK(r *RegionsInfo) = wfRI(r) && itemsOK(r.tree.tree) && disjointT(r.tree.tree) && sepRI(r)
+
+// SetRegion: afterwards the id maps to the new region; every indexed region that overlapped it is gone from the
+// id map and the index and is returned; every other region stays as it was; the indexed regions stay pairwise
+// disjoint and the id map and the index stay coupled.
+//@ func (*RegionsInfo).SetRegion
+//@   props C06 C07
+//@   requires wfRI(r) && itemsOK(r.tree.tree) && disjointT(r.tree.tree) && sepRI(r) && region != nil && allocated(region) && region.meta != nil && allocated(region.meta) && validRange(region)
+//@   ensures [wf-map-values] wfMapVals(r)
+//@   ensures [wf-map-in-tree] wfMapInTree(r)
+//@   ensures [wf-tree-in-map] wfTreeInMap(r)
+//@   loop 1 invariant [indexed-stay-mapped] wfTreeInMap(r)
+//@   ensures [wf-items] itemsOK(r.tree.tree)
+//@   ensures [wf-sep] sepRI(r)
+//@   ensures [disjoint] disjointT(r.tree.tree)
+//@   ensures [cached] cachedRegion(r, region.meta.Id) == region
+//@   ensures [displaced-unindexed] forall x *regionItem :: {old(inTree(r, x))} old(inTree(r, x)) && old(x.region.meta.Id) != region.meta.Id && ovl(old(x.region), region) ==> !inTree(r, x)
+//@   ensures [displaced-unmapped] forall x *regionItem :: {old(inTree(r, x))} old(inTree(r, x)) && old(x.region.meta.Id) != region.meta.Id && ovl(old(x.region), region) ==> !in(r.regions, old(x.region.meta.Id))
+//@   ensures [others-stay] forall x *regionItem :: {old(inTree(r, x))} old(inTree(r, x)) && old(x.region.meta.Id) != region.meta.Id && !ovl(old(x.region), region) ==> inTree(r, x) && x.region == old(x.region)
+//@   ensures [returns-displaced] forall i :: {result[i]} 0 <= i && i < len(result) ==> result[i] != nil && allocated(result[i]) && result[i].meta != nil && ovl(result[i], region)
+//@   at remove 1 after assert [old-item-unindexed] !inTree(r, item) && itemsOK(r.tree.tree) && disjointT(r.tree.tree)
+//@   at remove 1 mode index
+//@   at update 1 mode index
+//@   at updateStat 1 assert [same-range-stays-disjoint] forall x *regionItem :: {inTree(r, x)} inTree(r, x) && x != item ==> !ovl(x.region, region)
+//@   at update 1 assert [index-is-old-minus-item] forall x *regionItem :: {inTree(r, x)} inTree(r, x) ==> old(inTree(r, x)) && x != item && x.region == old(x.region) && old(r.regions[x.region.meta.Id]) == x && x.region.meta.Id != region.meta.Id
+//@   at update 1 after assert [displaced-wf] forall j :: {r0[j]} 0 <= j && j < len(r0) ==> r0[j] != nil && r0[j].meta != nil
+//@   at update 1 after assert [displaced-other-id] forall j :: {r0[j]} 0 <= j && j < len(r0) ==> r0[j].meta.Id != region.meta.Id
+//@   at update 1 after assert [displaced-mapped] forall j :: {r0[j]} 0 <= j && j < len(r0) ==> old(in(r.regions, r0[j].meta.Id)) && old(r.regions[r0[j].meta.Id].region) == r0[j] && old(r.regions[r0[j].meta.Id]) != item
+//@   at update 1 after assert [displaced-unindexed] forall j :: {r0[j]} 0 <= j && j < len(r0) ==> !inTree(r, old(r.regions[r0[j].meta.Id]))
+//@   at update 1 after assert [displaced-ids-distinct] forall i, j :: {r0[i], r0[j]} 0 <= i && i < j && j < len(r0) ==> r0[i].meta.Id != r0[j].meta.Id
+//@   loop 1 invariant r.tree == pre(r.tree) && r.tree.tree == pre(r.tree.tree) && (forall x *regionItem :: {bthas[pre(r.tree.tree)][x]} bthas[pre(r.tree.tree)][x] == pre(inTree(r, x)))
+//@   loop 1 invariant forall id uint64 :: {in(r.regions, id)} in(r.regions, id) == (pre(in(r.regions, id)) && !(exists j :: 0 <= j && j <= rangeindex && overlaps[j].meta.Id == id))
+//@   loop 1 invariant forall id uint64 :: {r.regions[id]} in(r.regions, id) ==> r.regions[id] == pre(r.regions[id])
+//@   loop 1 invariant itemsOK(r.tree.tree) && disjointT(r.tree.tree)
+//@   loop 1 invariant forall j :: {overlaps[j]} 0 <= j && j < len(overlaps) ==> overlaps[j] != nil && overlaps[j].meta != nil && overlaps[j].meta.Id != region.meta.Id && old(in(r.regions, overlaps[j].meta.Id)) && old(r.regions[overlaps[j].meta.Id].region) == overlaps[j] && old(r.regions[overlaps[j].meta.Id]) == pre(r.regions[overlaps[j].meta.Id]) && pre(in(r.regions, overlaps[j].meta.Id)) && !inTree(r, old(r.regions[overlaps[j].meta.Id]))
+//@   loop 1 invariant forall i, j :: {overlaps[i], overlaps[j]} 0 <= i && i < j && j < len(overlaps) ==> overlaps[i].meta.Id != overlaps[j].meta.Id
+//@   loop 1 isolated
+//@   loop 1 modifies r.regions[*], all regionTree.totalSize, ghost bthas
+//@   loop 2 modifies r.leaders[*], r.followers[*], all regionTree.totalSize, ghost bthas
+//@   loop 3 modifies r.learners[*], all regionTree.totalSize, ghost bthas
+//@   loop 4 modifies r.pendingPeers[*], all regionTree.totalSize, ghost bthas
+//@   loop 2 isolated
+//@   loop 2 invariant item != nil && allocated(item) && item.region == region && allocated(r.tree) && allocated(r.tree.tree)
+//@   loop 2 invariant r.tree == pre(r.tree) && r.tree.tree == pre(r.tree.tree) && (forall x *regionItem :: {bthas[pre(r.tree.tree)][x]} bthas[pre(r.tree.tree)][x] == pre(inTree(r, x))) && sepRI(r)
+//@   loop 3 isolated
+//@   loop 3 invariant item != nil && allocated(item) && item.region == region && allocated(r.tree) && allocated(r.tree.tree)
+//@   loop 3 invariant r.tree == pre(r.tree) && r.tree.tree == pre(r.tree.tree) && (forall x *regionItem :: {bthas[pre(r.tree.tree)][x]} bthas[pre(r.tree.tree)][x] == pre(inTree(r, x))) && sepRI(r)
+//@   loop 4 isolated
+//@   loop 4 invariant item != nil && allocated(item) && item.region == region && allocated(r.tree) && allocated(r.tree.tree)
+//@   loop 4 invariant r.tree == pre(r.tree) && r.tree.tree == pre(r.tree.tree) && (forall x *regionItem :: {bthas[pre(r.tree.tree)][x]} bthas[pre(r.tree.tree)][x] == pre(inTree(r, x))) && sepRI(r)
+//@   modifies r.regions[*], all regionItem.region, all regionTree.totalSize, r.leaders[*], r.followers[*], r.learners[*], r.pendingPeers[*], ghost bthas
+
+// PutRegion: the put must be acceptable against the cache as it is NOW (the caller re-validates under the lock that
+// serialises cache writers), so the region served for an id never goes back.
+//@ func (*BasicCluster).PutRegion
+//@   props C06
+//@   option event PutRegion
+//@   requires [acceptable-now] bc != nil && wfRI(bc.Regions) && region != nil && region.meta != nil && acceptable(bc.Regions, region)
+//@   requires [valid-range] validRange(region)
+//@   requires [index-ok] itemsOK(bc.Regions.tree.tree) && disjointT(bc.Regions.tree.tree) && sepRI(bc.Regions) && allocated(region) && allocated(region.meta)
+//@   ensures [wf] wfRI(bc.Regions) && itemsOK(bc.Regions.tree.tree) && disjointT(bc.Regions.tree.tree) && sepRI(bc.Regions)
+//@   ensures [cached] cachedRegion(bc.Regions, region.meta.Id) == region
+//@   ensures [never-regresses] old(cachedRegion(bc.Regions, region.meta.Id)) != nil ==> !staleVs(cachedRegion(bc.Regions, region.meta.Id), old(cachedRegion(bc.Regions, region.meta.Id)))
+//@   ensures [displaced-returned] forall i :: {result[i]} 0 <= i && i < len(result) ==> result[i] != nil && allocated(result[i]) && result[i].meta != nil
+//@   modifies all RegionsInfo.*, all regionTree.*, all regionItem.*, all map[uint64]*regionItem, all map[uint64]*regionTree, ghost bthas
+
+//@ func (*Storage).DeleteRegion
+//@   assumed
+//@   option event DeleteRegion
+//@   modifies ghost kvhas, ghost kvval
+//@ func (*Storage).SaveRegion
+//@   assumed
+//@   option event SaveRegion
+//@   modifies ghost kvhas, ghost kvval
